@@ -14,7 +14,8 @@ EXPLANATION = (
     "Structural preconditions of the liveness claim, decided from the source. (R1) capacity liveness for every MTU 512..1500 "
     "with the thresholds extracted from send(), FragmentSender.build(), Packet.setMTU() and the admission guards of "
     "_build_packet_impl: the largest unfragmented payload, an intermediate fragment and the largest last fragment each fit "
-    "alone into an empty datagram, the split makes progress; (R2) no unresolved name / possibly-unbound local in the send, "
+    "alone into an empty datagram (the accounted size comes from a linear abstract interpretation of the packing loops, the fragment "
+    "lengths from an offset abstraction of FragmentSender.build evaluated at every boundary length), the split terminates; (R2) no unresolved name / possibly-unbound local in the send, "
     "pack, timeout and retry functions; (R3) both send_guaranteed APIs pass RETRY_ON_TIMEOUT, _send_type wraps the callback in "
     "RetrySender exactly then, the retry chain re-queues itself until success, fragments re-send while the caller's mode is "
     "not NONE; (R4) timeouts are evaluated on every send tick on both sides; (R5) a message leaves a queue only on the path "
